@@ -129,6 +129,40 @@ char *__wrap_strdup(const char *s)
     if (p) { memcpy(p, s, n); led_add(p, n); }
     return p;
 }
+/* the other allocating entry points of libc, so that a library that switches to one of them is still accounted for (and its
+ * later free() is not mistaken for a foreign one) */
+void *__wrap_aligned_alloc(size_t al, size_t n) { if (alloc_must_fail(RA)) { errno = ENOMEM; return NULL; } led_guard(n); void *p = aligned_alloc(al, n); led_add(p, n); return p; }
+void *__wrap_memalign(size_t al, size_t n) { if (alloc_must_fail(RA)) { errno = ENOMEM; return NULL; } led_guard(n); void *p = NULL; if (posix_memalign(&p, al < sizeof(void *) ? sizeof(void *) : al, n)) p = NULL; led_add(p, n); return p; }
+void *__wrap_valloc(size_t n) { if (alloc_must_fail(RA)) { errno = ENOMEM; return NULL; } led_guard(n); void *p = NULL; if (posix_memalign(&p, (size_t)sysconf(_SC_PAGESIZE), n)) p = NULL; led_add(p, n); return p; }
+void *__wrap_reallocarray(void *q, size_t a, size_t b)
+{
+    if (alloc_must_fail(RA)) { errno = ENOMEM; return NULL; }
+    if (b && a > (size_t)-1 / b) { errno = ENOMEM; return NULL; }
+    led_guard(a * b);
+    if (q) led_del(q);
+    void *p = realloc(q, a * b); led_add(p, a * b); return p;
+}
+char *__wrap_strndup(const char *s, size_t n)
+{
+    if (alloc_must_fail(RA)) { errno = ENOMEM; return NULL; }
+    size_t l = strnlen(s, n); char *p = malloc(l + 1);
+    if (p) { memcpy(p, s, l); p[l] = 0; led_add(p, l + 1); }
+    return p;
+}
+int __wrap_vasprintf(char **out, const char *fmt, va_list ap)
+{
+    if (alloc_must_fail(RA)) { *out = NULL; return -1; }
+    int n = vasprintf(out, fmt, ap);
+    if (n >= 0 && *out) led_add(*out, (size_t)n + 1);
+    return n;
+}
+int __wrap_asprintf(char **out, const char *fmt, ...)
+{
+    if (alloc_must_fail(RA)) { *out = NULL; return -1; }
+    va_list ap; va_start(ap, fmt); int n = vasprintf(out, fmt, ap); va_end(ap);
+    if (n >= 0 && *out) led_add(*out, (size_t)n + 1);
+    return n;
+}
 void __wrap_free(void *p)
 {
     if (!p) return;
